@@ -35,6 +35,10 @@ func main() {
 		reentMain(os.Args[2:])
 	case "reentone":
 		reentOneMain(os.Args[2:])
+	case "inflight": // work in flight when Shutdown arrives (InFlight.tla cells), one subprocess each
+		inflightMain(os.Args[2:])
+	case "inflightone":
+		inflightOneMain(os.Args[2:])
 	default:
 		os.Exit(3)
 	}
